@@ -11,7 +11,7 @@ HS1 == Arr(<<H(IntV(2), "u"), H(IntV(3), "v"), H(IntV(2), "w")>>)
 HS2 == Arr(<<H(IntV(5), "p"), Hash(<< <<"t", Str("q")>> >>), H(Nil, "r"), H(IntV(7), "p")>>)
 HS3 == Arr(<<>>)
 HS4 == Arr(<<H(Str("b"), "z"), H(Str("a"), "y"), H(Str("b"), "x")>>)
-MCData == {<< <<<<"hs", h>>, <<"x", Str("OUTER")>>, <<"n", IntV(2)>>>>, <<>>, <<>>, <<>> >> : h \in {HS1, HS2, HS3, HS4}}
+MCData == {<< <<<<"hs", h>>, <<"x", Str("OUTER")>>, <<"n", IntV(2)>>, <<"na", Arr(<<Str("a"), Nil, Str("b")>>)>>>>, <<>>, <<>>, <<>> >> : h \in {HS1, HS2, HS3, HS4}}
 MCCfgs == {Cfg("+", TRUE, FALSE, "default")}
 MCPartials == <<>>
 
@@ -25,6 +25,13 @@ Lams == {F(V("hs"), <<Fl(f, <<Lam(<<"x">>, c)>>)>> \o Show) : f \in {"where", "r
         \cup {F(V("hs"), <<Fl("map", <<Lam(<<"x", "i">>, V("i"))>>), Fl("join", <<S(",")>>)>>)}
         \cup {F(V("hs"), <<Fl(f, <<Lam(<<"x">>, p)>>)>> \o Show) : f \in {"compact", "sort", "uniq"}, p \in {XA, VP("x", "t")}}
         \cup {F(V("hs"), <<Fl("sum", <<Lam(<<"x">>, XA)>>)>>)}
+        \* ties, missing keys and nil under sort_numeric / sort_natural, key form and arrow form
+        \cup {F(V("hs"), <<Fl(f, <<Lam(<<"x">>, p)>>)>> \o Show) : f \in {"sort_numeric", "sort_natural"}, p \in {XA, VP("x", "t")}}
+        \cup {F(V("hs"), <<Fl(f, <<S(k)>>)>> \o Show) : f \in {"sort_numeric", "sort_natural"}, k \in {"a", "t"}}
+        \* predicates that hold of nil: the first match is nil itself
+        \cup {F(V("na"), <<Fl(f, <<Lam(<<"x">>, c)>>)>>) : f \in {"has", "find_index"}, c \in {Cmp("==", V("x"), NilE), Not(V("x")), Cmp("==", V("x"), S("b"))}}
+        \cup {F(V("na"), <<Fl("where", <<Lam(<<"x">>, Cmp("==", V("x"), NilE))>>), Fl("size", <<>>)>>),
+              F(V("na"), <<Fl("find", <<Lam(<<"x">>, Cmp("==", V("x"), NilE))>>), Fl("default", <<S("nil-found")>>)>>)}
 Keys == {F(V("hs"), <<Fl(f, <<S("a"), v>>)>> \o Show) : f \in {"where", "reject"}, v \in {I(2), V("n"), S("b"), I(99)}}
         \cup {F(V("hs"), <<Fl(f, <<S("a")>>)>> \o Show) : f \in {"where", "reject", "compact", "sort", "uniq"}}
         \cup {F(V("hs"), <<Fl(f, <<S("a"), v>>)>>) : f \in {"find_index", "has"}, v \in {I(2), V("n"), S("b"), I(99)}}
